@@ -46,10 +46,43 @@ def run(rep, tier, seed):
         elif 'chunks' in st:
             for c in st['chunks']:
                 rep.hist['sctp-chunk-type:%d' % c['ctype']] = rep.hist.get('sctp-chunk-type:%d' % c['ctype'], 0) + 1
+    # every parser the registry hands out is its own: a caller that tailors the one it was given (stops the chaining, switches the
+    # CoAP options to semantic mode, drops a header parser) must not change what the next caller of factory() gets
+    from microschc.protocol.registry import factory
+    from schc_run import with_timeout
+    from core import mk, bits_of
+    from schc_util import fid_of
+    for stack in ALL_STACKS * (1 if tier == 'quick' else 5):
+        p1 = factory(stack)
+        try:
+            edit = rnd.choice(['predict', 'semantic', 'drop'])
+            if edit == 'predict' and hasattr(p1.parsers[0], 'predict_next'):
+                p1.parsers[0].predict_next = not p1.parsers[0].predict_next
+            elif edit == 'semantic':
+                from microschc.protocol.coap import CoAPParser, CoAPOptionMode
+                p1.parsers[-1] = CoAPParser(interpret_options=CoAPOptionMode.SEMANTIC)
+            else:
+                del p1.parsers[-1]
+        except Exception:  # noqa: BLE001
+            pass
+        p2 = factory(stack)
+        for _ in range(3):
+            pkt, st = rnd.choice(STACK_GENS[stack])(rnd)
+            bits = b2s(pkt)
+
+            def f():
+                pd = p2.parse(mk(bits))
+                return (tuple((fid_of(x.id), x.position, bits_of(x.value)) for x in pd.fields), bits_of(pd.payload))
+            out = with_timeout(f, 5)
+            want_fields, want_payload = ref_fields(stack, pkt, st)
+            fails = [] if out == ('OK', (tuple(want_fields), want_payload)) else ['a parser obtained from factory(%r) after another one was tailored (%s) gives %s' % (stack, edit, str(out)[:120])]
+            b.add('%s:factory-independence' % stack, pc.model_line(stack, bits), out, pc.parse_model, fails, dict(layer='parser', op='parse', stack=stack, bits=bits), key=('fi', stack, bits))
     # large well-formed SCTP packets: > 1000 parameters in one chunk, jumbo DATA, SACK with many blocks
-    for kind in (['params', 'data', 'sack'] if tier == 'quick' else ['params', 'data', 'sack'] * 6):
+    for kind in (['params', 'data', 'sack', 'bigparam', 'jumbo', 'data-coap', 'data-coap'] if tier == 'quick' else ['params', 'data', 'sack', 'bigparam', 'jumbo', 'data-coap', 'data-coap'] * 6):
         pkt, st = P.sctp_large(rnd, kind)
         for stack, wrap in (('SCTP', lambda x: x), ('IPv6', lambda x: P.ipv6(rnd, x, 132))):
+            if stack != 'SCTP' and len(pkt) > 65535:
+                continue      # does not fit the 16-bit IPv6 payload length
             full = wrap(pkt)
             bits = b2s(full)
             out = pc.observe(stack, bits)
